@@ -554,6 +554,40 @@ def bc_consts(ctx):
     return out
 
 
+def premise_from_ckc(ctx, rule):
+    """from_ckc decided over all 2^32 words: each of the 52 card words to its bit, every other word to the empty set"""
+    rep, pdb = ctx.rep, ctx.pdb
+    order = oracle.deck_order()
+    key, sty = ctx.method("u64", "from_ckc", BC)
+    w = atom("w", "u32")
+    sm_ = ctx.summ(key, [("v", w)], sty)
+    dag = sm_.ret
+    expect = {oracle.card_word(r, s_): 1 << (51 - i) for i, (r, s_) in enumerate(order)}
+    total_over_scalar(ctx, rule + ".no-panic", sm_, "w", "u32", [0] + list(expect) + near_miss_words(list(expect))[:4000])
+    try:
+        cells, nconst = cell_table(pdb, dag, "w", "u32")
+    except CellsRefused as e:
+        bad = refute_over(ctx, dag, "w", near_miss_words(list(expect)), lambda v: expect.get(v, 0))
+        if bad:
+            rep.ob(rule, "near-miss word", False, "from_ckc(%#x) = %s, expected %#x (every word that is not a card converts to the empty set)" % bad[0], pdb.where(key))
+        else:
+            rep.uncertified(rule, "not a comparison table: %s" % e, pdb.where(key))
+        return
+    rep.evals(2 * len(cells))
+    covered = 0
+    hit = 0
+    for (lo, hi), val, ident in cells:
+        covered += hi - lo + 1
+        if lo == hi and lo in expect:
+            hit += 1
+            rep.ob(rule, "card %#x" % lo, cval(val) == expect[lo], "from_ckc(%#x) = %s, expected bit %#x" % (lo, cval(val), expect[lo]), pdb.where(key))
+        else:
+            bad = ident or cval(val) != 0 or any(lo <= c <= hi for c in expect)
+            rep.ob(rule, "cell [%#x,%#x]" % (lo, hi), not bad, "from_ckc on non-card words [%#x,%#x] = %s, must be the empty set" % (lo, hi, "identity" if ident else cval(val)), pdb.where(key))
+    rep.ob(rule, "domain", covered == 1 << 32 and hit == 52, "cells cover %d words, %d card cells" % (covered, hit))
+    rep.sample({"rule": rule, "cells": len(cells), "domain": "2^32", "card_cells": hit})
+
+
 def check_C14(ctx):
     rep, pdb = ctx.rep, ctx.pdb
     premise_layout(ctx)
@@ -580,36 +614,8 @@ def check_C14(ctx):
             rep.ob("C14.word-deck", i, wd[i] == oracle.card_word(*order[i]), "POKER_DECK[%d] = %#x, expected %#x" % (i, wd[i], oracle.card_word(*order[i])), "src/deck.rs")
     ctx.guard("C14.bit-constants", consts)
 
-    def from_ckc():
-        key, sty = ctx.method("u64", "from_ckc", BC)
-        w = atom("w", "u32")
-        sm_ = ctx.summ(key, [("v", w)], sty)
-        dag = sm_.ret
-        expect = {oracle.card_word(r, s_): 1 << (51 - i) for i, (r, s_) in enumerate(order)}
-        total_over_scalar(ctx, "C14.from_ckc.no-panic", sm_, "w", "u32", [0] + list(expect) + near_miss_words(list(expect))[:4000])
-        try:
-            cells, nconst = cell_table(pdb, dag, "w", "u32")
-        except CellsRefused as e:
-            bad = refute_over(ctx, dag, "w", near_miss_words(list(expect)), lambda v: expect.get(v, 0))
-            if bad:
-                rep.ob("C14.from_ckc", "near-miss word", False, "from_ckc(%#x) = %s, expected %#x (every word that is not a card converts to the empty set)" % bad[0], pdb.where(key))
-            else:
-                rep.uncertified("C14.from_ckc", "not a comparison table: %s" % e, pdb.where(key))
-            return
-        rep.evals(2 * len(cells))
-        covered = 0
-        hit = 0
-        for (lo, hi), val, ident in cells:
-            covered += hi - lo + 1
-            if lo == hi and lo in expect:
-                hit += 1
-                rep.ob("C14.from_ckc", "card %#x" % lo, cval(val) == expect[lo], "from_ckc(%#x) = %s, expected bit %#x" % (lo, cval(val), expect[lo]), pdb.where(key))
-            else:
-                bad = ident or cval(val) != 0 or any(lo <= c <= hi for c in expect)
-                rep.ob("C14.from_ckc", "cell [%#x,%#x]" % (lo, hi), not bad, "from_ckc on non-card words [%#x,%#x] = %s, must be the empty set" % (lo, hi, "identity" if ident else cval(val)), pdb.where(key))
-        rep.ob("C14.from_ckc", "domain", covered == 1 << 32 and hit == 52, "cells cover %d words, %d card cells" % (covered, hit))
-        rep.sample({"rule": "C14.from_ckc", "cells": len(cells), "domain": "2^32", "card_cells": hit})
-    ctx.guard("C14.from_ckc", from_ckc)
+    ctx.guard("C14.from_ckc", premise_from_ckc, ctx, "C14.from_ckc")
+
 
     def from_bc():
         key, sty = ctx.method("u32", "from_binary_card", PC)
